@@ -19,7 +19,7 @@ analysis (RQA) and recurrence network analysis.
 """
 
 from math import factorial
-from typing import Tuple
+from typing import Optional, Tuple
 from collections.abc import Hashable
 
 import numpy as np
@@ -168,7 +168,6 @@ class RecurrencePlot(Cached):
         self.N: int = 0
         """The number of state vectors (number of lines and rows) of the RP."""
         self.R = None
-        """The recurrence matrix."""
 
         self._mut_embedding: int = 0
         if (self.dim is not None) and (self.tau is not None):
@@ -238,6 +237,17 @@ class RecurrencePlot(Cached):
                 f"time series shape {self.time_series.shape}.\n"
                 f"Embedding dimension {self.dim if self.dim else 0}\n"
                 f"Threshold {self.threshold}, {self.metric} metric")
+
+    @property
+    def R(self) -> Optional[np.ndarray]:
+        """The recurrence matrix."""
+        return self._R
+
+    @R.setter
+    def R(self, R: Optional[np.ndarray]):
+        self._R = R
+        # invalidate cached line distributions
+        self._mut_R: int = getattr(self, "_mut_R", 0) + 1
 
     @property
     def embedding(self) -> np.ndarray:
@@ -843,7 +853,7 @@ class RecurrencePlot(Cached):
     #
 
     @Cached.method(attrs=(
-        "metric", "threshold", "missing_values", "sparse_rqa"))
+        "metric", "threshold", "missing_values", "sparse_rqa", "_mut_R"))
     def diagline_dist(self):
         """
         Return the :index:`frequency distribution of diagonal line lengths
@@ -1068,7 +1078,7 @@ class RecurrencePlot(Cached):
     #
 
     @Cached.method(attrs=(
-        "metric", "threshold", "missing_values", "sparse_rqa"))
+        "metric", "threshold", "missing_values", "sparse_rqa", "_mut_R"))
     def vertline_dist(self):
         """
         Return the :index:`frequency distribution of vertical line lengths
